@@ -74,6 +74,9 @@ func suiteIndexScan(c *Ctx) error {
 		// escaped backslashes): whatever the indexer stores as a pattern has to be found again in the literal
 		p.Funcs = append(p.Funcs, &GFunc{Name: "QuotedLiterals", Family: "quoted-literals", Params: []GParam{{"x", TInt}}, Results: []GType{TStr},
 			Body: []GStmt{SRaw{"§cmd§ := \"\\\"C:\\\\\\\\ProgramData\\\\\\\\agent\\\\\\\\run.exe\\\"\"\n§cfg§ := \"'{\\\"k\\\":\\\"v\\\\n\\\"}'\"\nif §x§ > 2 {\n\treturn §cmd§ + \"--serve\"\n}\nreturn §cfg§ + \"`tick`\""}}})
+		// long literals made of multi-byte runes: a pattern cut at a byte offset can end inside a rune
+		p.Funcs = append(p.Funcs, &GFunc{Name: "LongLiterals", Family: "long-literals", Params: []GParam{{"x", TInt}}, Results: []GType{TStr},
+			Body: []GStmt{SRaw{"§note§ := \"" + strings.Repeat("您的文件已被加密请支付赎金", 9) + "\"\n§tail§ := \"é" + strings.Repeat("ü", 140) + "\"\nif §x§ > 2 {\n\treturn §note§ + \"--id\"\n}\nreturn §tail§ + \"contact-us\""}}})
 		// a function that calls, defers and starts closures with NAMED results (renamed by the variants)
 		p.Funcs = append(p.Funcs, &GFunc{Name: "NamedResults", Family: "closure-named-results", Closures: 3, Params: []GParam{{"x", TInt}}, Results: []GType{TInt},
 			Body: []GStmt{SRaw{"§get§ := func() (§val§ int, §err§ error) {\n\treturn §x§ + 1, nil\n}\n§v§, _ := §get§()\ndefer func() (§code§ int, §msg§ string) {\n\treturn §v§, \"done\"\n}()\ngo func() (§a§ int, §b§ int) {\n\treturn §v§, §x§\n}()\nreturn §v§"}}})
